@@ -86,8 +86,17 @@ func main() {
 	}
 	sort.Strings(paths)
 	for _, p := range paths {
+		pkgRelevant := false
+		for _, con := range eng.specs[p].Contracts {
+			if !con.Canary && eng.unitRelevant(con, *prop) {
+				pkgRelevant = true
+			}
+		}
 		for _, con := range eng.specs[p].Contracts {
 			if con.Kind == "type" {
+				continue
+			}
+			if con.Canary && !pkgRelevant {
 				continue
 			}
 			if !eng.unitRelevant(con, *prop) && !con.Canary {
@@ -354,6 +363,14 @@ func (r *Report) print(verbose bool) {
 	for _, u := range r.units {
 		if verbose {
 			fmt.Printf("unit %s: %d obligations, %d paths, %.1fs %s\n", u.Key, len(u.Obls), u.Paths, u.Seconds, u.Unsupported)
+			for _, n := range u.Notes {
+				fmt.Printf("     note: %s\n", n)
+			}
+			if u.Canary {
+				for _, o := range u.Obls {
+					fmt.Printf("     canary obligation %s: %s (%s)\n", o.Name, o.Status, o.Solver)
+				}
+			}
 		}
 	}
 	fmt.Printf("property %s tier %s: %d named obligations, %d discharged, %d units, canaries %d/%d, %.1fs\n",
